@@ -340,7 +340,11 @@ def install_hooks():
             return o_napf(self)
         CTX.jitter("notify.before", self.job.reference)
         REC.record("notify_all_producers_finished", self.job.reference)
-        return o_napf(self)
+        try:
+            return o_napf(self)
+        finally:
+            # the notification has taken effect (the engine's flag is set) only from here on
+            REC.record("notify.returned", self.job.reference)
     RE.notify_all_producers_finished = re_notify
 
     o_cm = monitor.CreateMonitor
